@@ -1,5 +1,6 @@
 import IncanModel.Driver.C04
 import IncanModel.Driver.C05
+import IncanModel.Driver.C07
 import IncanModel.Driver.C19
 
 open Incan.Driver
@@ -8,6 +9,7 @@ def dispatch (line : String) : String :=
   match line.trimAscii.toString.splitOn " " with
   | "c04" :: rest => handleC04 rest
   | "c05" :: rest => handleC05 rest
+  | "c07" :: rest => handleC07 rest
   | "c19" :: rest => handleC19 rest
   | _ => "bad-op"
 
